@@ -337,3 +337,71 @@ def writeObj (cfg : WriteCfg) (sd : Option F64) (o : WObj) : Except WoErr (List 
   | some dl => pure (hl.1 ++ dl, o3)
 
 end Lasio.Wo
+
+/-! ## the STRT / STOP / STEP keyword arguments of `write`
+
+`las.write(f, STRT=.., STOP=.., STEP=..)` hands the three values to `update_start_stop_step` — which is only called when the
+refresh is decided.  A value that is not `None` is stored as it is; a `None` is computed from the index as before. -/
+namespace Lasio.Wo
+
+/-- the STRT / STOP / STEP keyword arguments (`.none` = not given) -/
+structure SssArgs where
+  strt : PVal := .none
+  stop : PVal := .none
+  step : PVal := .none
+deriving DecidableEq, Repr
+
+/-- `if X is None: X = computed` -/
+def ov (given computed : PVal) : PVal :=
+  match given with
+  | .none => computed
+  | g => g
+
+/-- the three values `update_start_stop_step(STRT, STOP, STEP)` assigns (las.py:593-608).  Without a usable index the first
+computed value raises IndexError, which is swallowed: every argument keeps the value it was given (`None` if none). -/
+def sssValuesK (k : SssArgs) (sd : Option F64) : Option (List F64) → Option (PVal × PVal × PVal)
+  | none => some (k.strt, k.stop, k.step)
+  | some [] => some (k.strt, k.stop, k.step)
+  | some (x :: xs) =>
+    let s := ov k.strt (.str (fmt5 x))
+    let e := ov k.stop (.str (fmt5 (xs.getLastD x)))
+    match k.step with
+    | .none =>
+      match xs with
+      | [] => some (s, e, .none)
+      | _ :: _ =>
+        match sd with
+        | some d => some (s, e, .str (fmt5 d))
+        | none => none
+    | p => some (s, e, p)
+
+/-- `las.update_start_stop_step(STRT, STOP, STEP)` -/
+def updateStartStopStepK (k : SssArgs) (sd : Option F64) (o : WObj) : Except WoErr WObj :=
+  match keyIdx o.wellTr sSTRT o.well, keyIdx o.wellTr sSTOP o.well, keyIdx o.wellTr sSTEP o.well with
+  | some a, some b, some c =>
+    match sssValuesK k sd o.index with
+    | none => .error .unmodelled
+    | some (s, e, p) =>
+      .ok { o with well := ((o.well.modify a (setValue s)).modify b (setValue e)).modify c (setValue p) }
+  | _, _, _ => .error (.raise .keyError)
+
+/-- the object after `write`'s preparation when STRT / STOP / STEP are passed -/
+def prepareK (k : SssArgs) (sd : Option F64) (o : WObj) : Except WoErr WObj := do
+  let d ← refreshDecision o
+  let o1 ← if d then updateStartStopStepK k sd o else pure o
+  updateUnits o1
+
+/-- `las.write(f, STRT=.., STOP=.., STEP=.., **cfg)` -/
+def writeObjK (k : SssArgs) (cfg : WriteCfg) (sd : Option F64) (o : WObj) : Except WoErr (List Str × WObj) := do
+  if o.data.length != o.curves.length || !sameLengths o.data then throw WoErr.unmodelled
+  let vsec ← setWrap cfg o
+  let v ← resolveVersion cfg o.versionTr vsec
+  let o2 ← prepareK k sd o
+  let hl ← liftErr (Wr.headerLines v cfg.wrap cfg.headerWidth (toWLas o2))
+  let o3 := afterHeader cfg o2
+  let null ← nullText o3
+  match Dw.dataLines (dataCfg cfg) null (o3.curves.map (·.session)) (rowsOf o3.data) with
+  | none => throw WoErr.unmodelled
+  | some dl => pure (hl.1 ++ dl, o3)
+
+end Lasio.Wo
